@@ -1,6 +1,7 @@
 """C01 — every generated client is a valid, importable Python package (DESIGN §C01)."""
 from __future__ import annotations
 
+import copy
 import itertools
 import re
 import tomllib
@@ -262,6 +263,33 @@ def _two_round():
                                "payload": {"doc": gen.base_doc(comps, paths=paths), "options": {}, "meta": "none", "key": f"two-round/{hk}/{ik}"}}
 
 
+def _type_list_cases():
+    """(i) degenerate 3.1 type lists (empty, one member, repeated member, only null) at every place a schema can stand."""
+    lists = {"empty": [], "one": ["string"], "repeated": ["string", "string"], "only-null": ["null"], "null-twice": ["null", "null"],
+             "object-only": ["object"], "array-only": ["array"]}
+    R = "#/components/schemas/"
+    for lname, tl in lists.items():
+        sch = {"type": tl, **({"items": {"type": "integer"}} if "array" in tl else {})}
+        places = {
+            "required-property": ({"M": {"type": "object", "required": ["p"], "properties": {"p": sch}}}, None),
+            "optional-property": ({"M": {"type": "object", "properties": {"p": sch}}}, None),
+            "array-items": ({"M": {"type": "object", "properties": {"p": {"type": "array", "items": sch}}}}, None),
+            "additional-properties": ({"M": {"type": "object", "additionalProperties": sch}}, None),
+            "component": ({"M": sch}, None),
+            "union-member": ({"M": {"type": "object", "required": ["p"], "properties": {"p": {"oneOf": [sch, {"type": "integer"}]}}}}, None),
+            "response": ({}, {"/r": {"get": {"operationId": "getR", "responses": {"200": {"description": "d", "content": {"application/json": {"schema": sch}}}}}}}),
+            "body": ({}, {"/r": {"post": {"operationId": "postR", "requestBody": {"required": True, "content": {"application/json": {"schema": sch}}}, "responses": {"204": {"description": "n"}}}}}),
+            "required-query": ({}, {"/r": {"get": {"operationId": "getR", "parameters": [{"name": "q", "in": "query", "required": True, "schema": sch}], "responses": {"204": {"description": "n"}}}}}),
+            "optional-header": ({}, {"/r": {"get": {"operationId": "getR", "parameters": [{"name": "h", "in": "header", "schema": sch}], "responses": {"204": {"description": "n"}}}}}),
+        }
+        for pname, (comps, paths) in places.items():
+            if paths is None:
+                paths = {"/m": {"post": {"operationId": "postM", "requestBody": {"required": True, "content": {"application/json": {"schema": {"$ref": R + "M"}}}},
+                                         "responses": {"200": {"description": "d", "content": {"application/json": {"schema": {"$ref": R + "M"}}}}}}}}
+            yield {"labels": [f"type-list={lname}", f"at={pname}"],
+                   "payload": {"doc": gen.base_doc(copy.deepcopy(comps), paths=copy.deepcopy(paths)), "options": {}, "meta": "none", "key": f"type-list/{lname}"}}
+
+
 def _has_cycle(n, edges):
     adj = {i: {j for a, j, _k in edges if a == i} for i in range(n)}
     def reach(a, b, seen):
@@ -278,6 +306,7 @@ def cases(tier):
     yield from _graphs(tier)
     yield from _regenerations(tier)
     yield from _two_round()
+    yield from _type_list_cases()
     bound = 2 if tier == "quick" else 3
     limit = 30000 if tier == "quick" else 400000
     for labels, payload, _d in explore(_build, bound=bound, limit=limit):
